@@ -377,6 +377,10 @@ class Opts:
         self.share_prob = 0.25  # probability to reuse an already generated sub-spec (sharing / diamonds)
         self.qualifiers_on_fields = True
         self.none_members = False  # fixed tuples may hold a bare `None` member (at any position)
+        # Flag / IntFlag enums: CPython itself caches the pseudo-members it creates for combined values on the enum class, so whether
+        #   `Perm(3.0)` is accepted depends on whether `Perm(3)` was ever built in the process - workloads that compare with a cold
+        #   process switch these flavours off
+        self.flag_enums = True
         self.__dict__.update(kw)
 
     def but(self, **kw):
@@ -419,11 +423,11 @@ class Gen:
 
     def enum(self):
         rng = self.rng
-        flavour = rng.choice(["Enum", "Enum", "IntEnum", "StrMixin", "IntMixin", "StrEnum", "Flag", "IntFlag"])
+        flavour = rng.choice(["Enum", "Enum", "IntEnum", "StrMixin", "IntMixin", "StrEnum"] + (["Flag", "IntFlag"] if self.opts.flag_enums else []))
         name = self.prog.fresh("E")
         n = rng.randrange(1, 5)
         if flavour in ("Flag", "IntFlag"):
-            vals = rng.sample([1, 2, 4, 8, 2**20], n)  # combined members (a | b) and the empty flag are valid values without a name of their own
+            vals = rng.sample([1, 2, 4, 8], n)  # combined members (a | b) and the empty flag are valid values without a name of their own
         elif flavour in ("IntEnum", "IntMixin"):
             vals = rng.sample([0, 1, 2, 3, -1, 100, 2**40], n)
         elif flavour in ("StrMixin", "StrEnum"):
@@ -448,6 +452,10 @@ class Gen:
                     vals[i] = cand
         body = "\n".join(f"    m{i} = {v!r}" for i, v in enumerate(vals))
         self.prog.emit(f"class {name}({base}):\n{body}\n")
+        if flavour in ("Flag", "IntFlag"):
+            # CPython creates (and caches on the class) a pseudo-member per combined value on first use: create them all up front, so
+            #   the class is in the same state whatever is done with it later
+            self.prog.emit(f"for _v in range(16):\n    try:\n        {name}(_v)\n    except ValueError:\n        pass\n")
         return self.prog.spec("enum", name, flavour=flavour, values=vals, name=name)
 
     # -- composites -----------------------------------------------------------------
